@@ -133,6 +133,119 @@ func fillThrift(t reflect.Type, k int) reflect.Value {
 	return v
 }
 
+// freshBigTypes: a never-before-seen struct type of 36 fields over six fresh nested struct types (as value, pointer,
+// list element and map value), and a type that holds it: building their codecs takes long enough for a second goroutine
+// to arrive while the first is at work, on the type itself or on one that contains it
+func freshBigTypes() (reflect.Type, reflect.Type) {
+	n := strconv.FormatInt(typeCounter.Add(1), 10)
+	tag := func(i int) reflect.StructTag { return reflect.StructTag(`thrift:"` + strconv.Itoa(i) + `"`) }
+	var leaves []reflect.Type
+	for l := 0; l < 6; l++ {
+		var fs []reflect.StructField
+		for i := 0; i < 8; i++ {
+			ft := []reflect.Type{reflect.TypeOf(int64(0)), reflect.TypeOf(""), reflect.TypeOf(int32(0)), reflect.TypeOf(true)}[(i+l)%4]
+			fs = append(fs, reflect.StructField{Name: "L" + n + "x" + strconv.Itoa(l) + "f" + strconv.Itoa(i), Type: ft, Tag: tag(i + 1)})
+		}
+		leaves = append(leaves, reflect.StructOf(fs))
+	}
+	var fs []reflect.StructField
+	for i := 0; i < 36; i++ {
+		lt := leaves[i%6]
+		ft := []reflect.Type{reflect.TypeOf(int32(0)), lt, reflect.TypeOf(""), reflect.SliceOf(lt), reflect.PointerTo(lt), reflect.MapOf(reflect.TypeOf(""), lt)}[(i/6+i)%6]
+		fs = append(fs, reflect.StructField{Name: "B" + n + "f" + strconv.Itoa(i), Type: ft, Tag: tag(i + 1)})
+	}
+	big := reflect.StructOf(fs)
+	outer := reflect.StructOf([]reflect.StructField{
+		{Name: "O" + n, Type: reflect.TypeOf(int32(0)), Tag: tag(1)},
+		{Name: "T", Type: big, Tag: tag(2)},
+		{Name: "TS", Type: reflect.SliceOf(big), Tag: tag(3)},
+		{Name: "Z", Type: reflect.TypeOf(""), Tag: tag(4)},
+	})
+	return big, outer
+}
+
+func fillAny(v reflect.Value, k int) {
+	switch v.Kind() {
+	case reflect.Int32, reflect.Int64:
+		v.SetInt(int64(k))
+	case reflect.String:
+		v.SetString("s" + strconv.Itoa(k))
+	case reflect.Bool:
+		v.SetBool(true)
+	case reflect.Struct:
+		for i := 0; i < v.NumField(); i++ {
+			fillAny(v.Field(i), k+i)
+		}
+	case reflect.Pointer:
+		v.Set(reflect.New(v.Type().Elem()))
+		fillAny(v.Elem(), k)
+	case reflect.Slice:
+		v.Set(reflect.MakeSlice(v.Type(), 2, 2))
+		fillAny(v.Index(0), k)
+		fillAny(v.Index(1), k+1)
+	case reflect.Map:
+		v.Set(reflect.MakeMap(v.Type()))
+		e := reflect.New(v.Type().Elem()).Elem()
+		fillAny(e, k)
+		v.SetMapIndex(reflect.ValueOf("k"), e)
+	}
+}
+
+// c09FirstUse: the six first uses (Marshal and Unmarshal of each package) of one big fresh type, every goroutine let
+// go at once: the even ones on the type itself, the odd ones on the type that holds it
+func c09FirstUse(k int) []c09Op {
+	big, outer := freshBigTypes()
+	bv, ov := reflect.New(big).Elem(), reflect.New(outer).Elem()
+	fillAny(bv, k)
+	fillAny(ov, k+1)
+	pick := func(g int) (reflect.Type, reflect.Value) {
+		if g%2 == 0 {
+			return big, bv
+		}
+		return outer, ov
+	}
+	jdoc := [2][]byte{}
+	jdoc[0], _ = stdjson.Marshal(bv.Interface())
+	jdoc[1], _ = stdjson.Marshal(ov.Interface())
+	var ops []c09Op
+	for g := 0; g < 2; g++ {
+		g := g
+		t, v := pick(g)
+		which := []string{"a big fresh type", "the type that holds it"}[g]
+		ops = append(ops,
+			c09Op{"thrift.Marshal(" + which + ")", func() string {
+				b, err := thrift.Marshal(&thrift.CompactProtocol{}, v.Interface())
+				return fmt.Sprintf("%x|%v", b, err)
+			}},
+			c09Op{"thrift.Unmarshal(" + which + ")", func() string {
+				b, _ := thrift.Marshal(&thrift.BinaryProtocol{}, v.Interface())
+				out := reflect.New(t)
+				err := thrift.Unmarshal(&thrift.BinaryProtocol{}, b, out.Interface())
+				return fmt.Sprintf("%v|%v", reflect.DeepEqual(out.Elem().Interface(), v.Interface()), err)
+			}},
+			c09Op{"json.Marshal(" + which + ")", func() string {
+				b, err := json.Marshal(v.Interface())
+				return fmt.Sprintf("%v|%v", bytes.Equal(b, jdoc[g]), err)
+			}},
+			c09Op{"json.Unmarshal(" + which + ")", func() string {
+				out := reflect.New(t)
+				err := json.Unmarshal(jdoc[g], out.Interface())
+				return fmt.Sprintf("%v|%v", reflect.DeepEqual(out.Elem().Interface(), v.Interface()), err)
+			}},
+			c09Op{"proto.Marshal(" + which + ")", func() string {
+				b, err := proto.Marshal(v.Interface())
+				return fmt.Sprintf("%x|%v", b, err)
+			}},
+			c09Op{"proto.Unmarshal(" + which + ")", func() string {
+				b, _ := proto.Marshal(v.Interface())
+				out := reflect.New(t)
+				err := proto.Unmarshal(b, out.Interface())
+				return fmt.Sprintf("%v|%v", reflect.DeepEqual(out.Elem().Interface(), v.Interface()), err)
+			}})
+	}
+	return ops
+}
+
 // one operation = a function returning a canonical result string
 type c09Op struct {
 	name string
@@ -616,6 +729,53 @@ func c09Stress(args []string) {
 		var ops [][]c09Op
 		for k := 0; k < K; k++ {
 			ops = append(ops, opsFor(round, k+1, freshJSONType(), freshProtoType(), freshThriftType()))
+		}
+		// first uses of one big type, all goroutines let go together, one entry point after the other
+		{
+			fu := c09FirstUse(round + 1)
+			half := len(fu) / 2
+			got := make([][]string, *G)
+			for o := 0; o < half; o++ {
+				var start, done sync.WaitGroup
+				start.Add(1)
+				for g := 0; g < *G; g++ {
+					if o == 0 {
+						got[g] = make([]string, half)
+					}
+					done.Add(1)
+					go func(g, o int) {
+						defer done.Done()
+						op := fu[(g%2)*half+o]
+						start.Wait()
+						var res string
+						if p := protect(func() { res = op.run() }); p != "" {
+							res = p
+						}
+						got[g][o] = res
+						progress.Add(1)
+					}(g, o)
+				}
+				start.Done()
+				done.Wait()
+			}
+			for o := 0; o < half; o++ {
+				for g := 0; g < *G; g++ {
+					op := fu[(g%2)*half+o]
+					var want string
+					if p := protect(func() { want = op.run() }); p != "" {
+						want = p
+					}
+					if strings.HasPrefix(want, "false|") {
+						want = "true|<nil>" // (round trips judge themselves)
+					}
+					progress.Add(1)
+					total++
+					if got[g][o] != want {
+						report(fmt.Sprintf(`{"t":"div","prop":"C09","api":%q,"want":%q,"got":%q,"case":{"seed":%d,"round":%d,"g":%d}}`,
+							op.name+" (every goroutine's first call)", clipS(want), clipS(got[g][o]), *seed, round, *G))
+					}
+				}
+			}
 		}
 		nops := len(ops[0])
 		results := make([][][]string, *G)
